@@ -22,6 +22,7 @@ from easynetwork.lowlevel.api_async.backend._asyncio.backend import AsyncIOBacke
 from easynetwork.lowlevel.api_async.transports.tls import AsyncTLSStreamTransport
 from easynetwork.lowlevel.api_sync.transports.socket import SSLStreamTransport
 
+from vlib import netutil  # noqa: E402
 from vlib import memtransport, tlspeer, vloop, vselect
 from vlib.runner import HangDetected, cpu_guard
 
@@ -250,15 +251,7 @@ class _Stall(BaseException):
 
 
 def sync_session(ctx, rng: random.Random, version: str, lib_server: bool, p: dict) -> str | None:
-    srv = socket.socket()
-    srv.bind(("127.0.0.1", 0))
-    srv.listen(1)
-    lsock = socket.socket()
-    lsock.connect(srv.getsockname())
-    psock, _ = srv.accept()
-    srv.close()
-    for s_ in (lsock, psock):
-        s_.setsockopt(socket.IPPROTO_TCP, socket.TCP_NODELAY, 1)
+    lsock, psock = netutil.tcp_pair()
     lib_msgs = [_payload(rng, f"L{i}", s) for i, s in enumerate(p["lib_sizes"])]
     peer_msgs = [_payload(rng, f"P{i}", s) for i, s in enumerate(p["peer_sizes"])]
     steps: list = [("handshake",)]
